@@ -1,5 +1,5 @@
 """Writes /tmp/seed/<PID>/TASK.md (and a scratch worktree) for a round of seeding by sub-agents: usage tools/mktasks.py [PID ...]"""
-import json, os, subprocess, glob
+import json, os, subprocess, glob, re
 props=[json.loads(l) for l in open('/verif/properties.jsonl') if l.strip()]
 import sys
 ONLY=sys.argv[1:]
@@ -10,13 +10,15 @@ for p in props:
     for d in sorted(glob.glob(f"/verif/seeded/{pid}-m*/meta.json")):
         m=json.load(open(d)); s=(m.get("agent_meta",{}).get("summary") or "").strip()
         if s: prev.append("- "+s[:200])
+    ks=[int(re.search(r"-m(\d+)$",x).group(1)) for x in glob.glob(f"/verif/seeded/{pid}-m*")]
+    KA=max(ks+[0])+1; KB=KA+1
     d=f"/tmp/seed/{pid}"
     os.makedirs(d+"/out", exist_ok=True); os.makedirs(d+"/tmp", exist_ok=True)
     wt=f"/tmp/seed/{pid}/wt"
     if not os.path.isdir(wt):
         subprocess.run(["git","-C","/repo","worktree","add","--detach",wt,"HEAD"],check=True,capture_output=True)
     anchors=", ".join(p["anchors"]["files"][:16])
-    open(d+"/TASK.md","w").write(f"""# Task: seed defects that break one property (seventh round: something new again)
+    open(d+"/TASK.md","w").write(f"""# Task: seed defects that break one property (eighth round: something new again)
 
 You are given a scratch git worktree of the Python project ExplorerScript (a compiler and decompiler for a scripting
 language that targets "SSB" bytecode) at `{wt}` (detached HEAD). Work ONLY inside `{wt}`, `/tmp/seed/{pid}/out` and
@@ -26,7 +28,7 @@ NEVER use `git stash` (shared between worktrees): use `git -C {wt} diff > file`,
 `git -C {wt} apply file`; for an untouched copy of the original: `mkdir -p /tmp/seed/{pid}/tmp/orig && git -C {wt} archive HEAD | tar -x -C /tmp/seed/{pid}/tmp/orig`.
 Use `/venv/bin/python`. To import your modified tree: `cd {wt} && PYTHONPATH={wt} /venv/bin/python ...` (check with
 `python -c "import explorerscript; print(explorerscript.__file__)"`). Keep CPU use moderate (no campaigns over thousands of
-programs) and finish within about 25 minutes.
+programs) and finish within about 15 minutes.
 
 ## The property (users rely on it; it must hold for every input / history / schedule)
 
@@ -44,7 +46,7 @@ Code the property is anchored in (relative to the worktree): {anchors}
 
 ## What to produce
 
-TWO independent changes (mutants m14 and m15) that break the property through a mechanism and at a code site DIFFERENT from
+TWO independent changes (mutants m{KA} and m{KB}) that break the property through a mechanism and at a code site DIFFERENT from
 everything in the list above (and from each other). Look for what the list still leaves out: language constructs, opcode
 families, parameter kinds or option combinations nobody touched yet; interactions of two features; limits and sizes; error
 paths that recover; ordering assumptions; platform differences; state that lives longer than one call; code shared with
@@ -56,7 +58,7 @@ optimisation) with:
 3. no violation on trivial or the most typical inputs, no wholesale breakage;
 4. no edits to tests, docs or generated parser files under explorerscript/antlr/, no new dependencies.
 
-For each mutant k in (14, 15) write into `/tmp/seed/{pid}/out/`:
+For each mutant k in ({KA}, {KB}) write into `/tmp/seed/{pid}/out/`:
 - `m<k>.diff` : `git -C {wt} diff` for that mutant alone relative to HEAD (one at a time; `git -C {wt} checkout -- .` in between);
 - `m<k>_demo.py` : self-contained script that imports `explorerscript` from PYTHONPATH, prints what it observes, exits 1 when the
   violation shows (mutated tree) and 0 when the property holds on that input (unmodified tree). Run it on both trees to confirm;
